@@ -419,6 +419,12 @@ fn parse_filtered_tokens(
     mode: Mode,
     source_path: &str,
 ) -> Result<ast::Mod, ParseError> {
+    // Every entry point funnels through here, including `Parse::parse_tokens`, so the
+    // comment and non-logical newline tokens of the full lexer are dropped here.
+    #[cfg(feature = "full-lexer")]
+    let lxr = lxr
+        .into_iter()
+        .filter_ok(|(tok, _)| !matches!(tok, Tok::Comment { .. } | Tok::NonLogicalNewline));
     let marker_token = (Tok::start_marker(mode), Default::default());
     let lexer = iter::once(Ok(marker_token)).chain(lxr);
     python::TopParser::new()
